@@ -25,6 +25,9 @@ func vTeardownPreState() (*Association, *vConn, []*Stream) {
 		_, _ = streams[0].WriteSCTP(nondetBytes(1), PayloadTypeWebRTCBinary) // data queued (and, with BlockWrite, the gate closed)
 	}
 	a.setState(uint32(vPick(8)))
+	if vPick(2) == 1 {
+		conn.closeErr = vConnErr{} // closing the transport may itself fail
+	}
 	return a, conn, streams
 }
 
@@ -46,8 +49,15 @@ func vAssertTornDown(a *Association, conn *vConn, streams []*Stream, wantErr err
 	_, aerr := a.AcceptStream()
 	vassert(aerr == io.EOF, "AcceptStream returns EOF instead of blocking")
 	vassert(!a.writePending, "blocked writers are released")
-	// every timer is closed: a later start arms nothing
+	// every timer is closed: a later start arms nothing, also after a stop (handlers of packets
+	// read just before the teardown stop and restart timers)
 	vassert(!a.t1Init.start(1000) && !a.t1Cookie.start(1000) && !a.t2Shutdown.start(1000) && !a.t3RTX.start(1000) && !a.tReconfig.start(1000) && !a.ackTimer.start(), "all timers are closed")
+	for _, t := range []*rtxTimer{a.t1Init, a.t1Cookie, a.t2Shutdown, a.t3RTX, a.tReconfig} {
+		t.stop()
+		vassert(!t.start(1000) && !t.isRunning(), "a closed timer stays closed when a late handler stops and restarts it")
+	}
+	a.ackTimer.stop()
+	vassert(!a.ackTimer.start(), "the ack timer stays closed too")
 	vassert(vLocksFree(a, nil), "no lock is left held")
 }
 
@@ -61,10 +71,17 @@ func vh_C09_L1_read_loop_exit() {
 		_ = a.close()
 	}
 	a.readLoop()
+	// the writer may still be stuck in a transport write: the read loop's exit alone must
+	// leave the association closed for everybody who is woken by it
+	vassert(a.getState() == closed, "the association is CLOSED as soon as the read loop has ended")
+	for _, s := range streams {
+		_, werr := s.WriteSCTP([]byte{1}, PayloadTypeWebRTCBinary)
+		vassert(werr != nil, "a writer released by the read loop's exit gets an error")
+	}
 	a.writeLoop() // the writer reacts to the stop signal
 	vAssertTornDown(a, conn, streams, nil)
-	vassert(a.Close() == nil, "Close after the read loop ended returns")
-	vassert(a.Close() == nil, "repeated Close is harmless")
+	vassert((a.Close() != nil) == (conn.closeErr != nil), "Close after the read loop ended returns (with the transport's close result)")
+	vassert((a.Close() != nil) == (conn.closeErr != nil), "repeated Close is harmless")
 	vassert(conn.closes == 1, "the transport is closed exactly once")
 	vassert(a.Shutdown(vNeverCtx{}) != nil, "Shutdown on a closed association fails instead of hanging")
 	vcover("end")
@@ -90,7 +107,8 @@ func vh_C09_L3_close_idempotent() {
 	a, conn, _ := vTeardownPreState()
 	n := 1 + vPick(3)
 	for i := 0; i < n; i++ {
-		vassert(a.close() == nil, "close succeeds")
+		cerr := a.close()
+		vassert((cerr != nil) == (conn.closeErr != nil), "close reports exactly what closing the transport reported")
 	}
 	vassert(conn.closes == 1, "the transport is closed exactly once however often close runs")
 	vassert(a.getState() == closed && vIsShut(a), "closed")
